@@ -22,3 +22,55 @@ pub fn parse_only(text: &str) -> String {
     .unwrap_or(json!({"res": "panic"}));
     h(&j)
 }
+
+
+/// Conversions of Rust values into `toml::Value` that must not depend on the feature configuration (they need
+/// neither parsing nor printing): a map whose serializer announces an absurd length, a struct with a `None` field.
+pub fn try_from_probe() -> String {
+    use serde::ser::{SerializeMap, SerializeStruct};
+    struct Squares;
+    impl serde::Serialize for Squares {
+        fn serialize<S: serde::Serializer>(&self, s: S) -> Result<S::Ok, S::Error> {
+            let mut m = s.serialize_map(Some(usize::MAX))?;
+            for i in 1..=3u32 {
+                m.serialize_entry(&format!("n{i}"), &(i * i))?;
+            }
+            m.end()
+        }
+    }
+    struct Package;
+    impl serde::Serialize for Package {
+        fn serialize<S: serde::Serializer>(&self, s: S) -> Result<S::Ok, S::Error> {
+            let mut st = s.serialize_struct("Package", 3)?;
+            st.serialize_field("name", "demo")?;
+            st.serialize_field("version", &None::<String>)?;
+            st.serialize_field("edition", &Some(2021u32))?;
+            st.end()
+        }
+    }
+    fn shape(v: &toml::Value) -> J {
+        match v {
+            toml::Value::Table(t) => {
+                let mut es: Vec<(String, J)> = t.iter().map(|(k, v)| (k.clone(), shape(v))).collect();
+                es.sort_by(|a, b| a.0.cmp(&b.0));
+                json!({"t": es})
+            }
+            toml::Value::Array(a) => json!({"a": a.iter().map(shape).collect::<Vec<_>>()}),
+            toml::Value::Integer(i) => json!({"i": i}),
+            toml::Value::String(s) => json!({"s": s}),
+            _ => json!("other"),
+        }
+    }
+    let one = |r: std::thread::Result<Result<toml::Value, toml::ser::Error>>| match r {
+        Ok(Ok(v)) => shape(&v),
+        Ok(Err(_)) => json!("err"),
+        Err(_) => json!("panic"),
+    };
+    let a = one(std::panic::catch_unwind(|| toml::Value::try_from(Squares)));
+    let b = one(std::panic::catch_unwind(|| toml::Value::try_from(Package)));
+    let mut m = std::collections::BTreeMap::new();
+    m.insert("k".to_string(), None::<i64>);
+    m.insert("j".to_string(), Some(1i64));
+    let c = one(std::panic::catch_unwind(|| toml::Value::try_from(m.clone())));
+    h(&json!([a, b, c]))
+}
